@@ -472,11 +472,18 @@ class Interp:
                 pnames = [a.arg for a in c.node.args.posonlyargs + c.node.args.args]
                 if pnames and pnames[0] in ("self", "cls") and isinstance(fn, ast.Attribute):
                     pnames = pnames[1:]
+                preset: dict[str, Shape] = {}
                 for pn, a in zip(pnames, e.args):
                     if isinstance(a, ast.Constant):
                         bind[pn] = a.value
                     elif isinstance(a, ast.Name) and a.id in self.bind:
                         bind[pn] = self.bind[a.id]
+                    else:
+                        # the argument's shape (with its provenance tags) is what the callee's parameter holds: a private
+                        # helper extracted from the constructor sees the same text the inline expression did
+                        sh_a = self.shape(a, env)
+                        if not is_unknown(sh_a):
+                            preset[pn] = sh_a
                 for kw in e.keywords:
                     if kw.arg and isinstance(kw.value, ast.Constant):
                         bind[kw.arg] = kw.value.value
@@ -490,7 +497,12 @@ class Interp:
                 for pn, d in dflt.items():
                     if pn not in given and isinstance(d, ast.Constant):
                         bind[pn] = d.value
-                sub = Interp(self.ctx, c, self.depth + 1, bind=bind)
+                for kw in e.keywords:
+                    if kw.arg and kw.arg not in bind:
+                        sh_k = self.shape(kw.value, env)
+                        if not is_unknown(sh_k):
+                            preset[kw.arg] = sh_k
+                sub = Interp(self.ctx, c, self.depth + 1, bind=bind, preset=preset)
                 sub.run()
                 self.decimal += sub.decimal
                 self.hexfmt += sub.hexfmt
